@@ -26,6 +26,16 @@ def check_split(w):
         hits = [(f, t.count(wd)) for f, t in texts.items() if wd in t]
         if len(hits) != 1 or hits[0][1] != 1:
             return False, 'body word %r appears %r (split level %d, files %r)' % (wd, hits, w['level'], names)
+    # the split rule: the document plus every sectioning unit at or above the split level has a file of its own (templates that
+    # name several files: a blank or a bracket); a single-name template keeps everything in one file
+    import re
+    tmpl = w.get('template')
+    multi = tmpl is None or ' ' in tmpl or '[' in tmpl
+    lv = {'section': 1, 'subsection': 2, 'subsubsection': 3}
+    units = [lv[m] for m in re.findall(r'\\(section|subsection|subsubsection)\*?\{', src)]
+    expected = 1 + (sum(1 for u in units if u <= w['level']) if multi else 0)
+    if len(names) != expected:
+        return False, '%d files for split level %d and template %r, the split rule gives %d (units at levels %r)' % (len(names), w['level'], tmpl, expected, units)
     # order within a file follows the document
     order = [wd for wd in words if wd.startswith('wx')]
     for f, t in texts.items():
@@ -35,9 +45,10 @@ def check_split(w):
 
 
 def gen_split(rng):
-    src, words, labs, refs = R.gen_doc(rng, depth=2)
+    src, words, labs, refs = R.gen_doc(rng, depth=2, bad_titles=True)
     return dict(src=src, words=words, level=rng.choice([-10, 0, 1, 2, 3, 6]),
-                template=rng.choice([None, 'index [$id, sect$num(4)]', 'index [$title, file$num]', 'single']))
+                template=rng.choice([None, 'index [$id, sect$num(4)]', 'index [$title, file$num]', 'single', '[$id,sect$num(4)]', 'index sect$num(3)',
+                                     'doc-[$id,sect$num(3)]', 'index [$title(2), file$num]']))
 
 
 def bounded_split(budget, rng):
@@ -57,5 +68,5 @@ def bounded_split(budget, rng):
 CONTRACTS = {}
 GROUND = []
 BOUNDED = [('bounded/render-split', 'every body word appears exactly once in exactly one output file; file names clean and identical on a second run',
-            'random sectioned documents (2-3 levels, lists, footnotes, labels) x split level in {-10,0,1,2,3,6} x 4 filename templates; budget-limited', bounded_split)]
+            'random sectioned documents (2-3 levels, lists, footnotes, labels) x split level in {-10,0,1,2,3,6} x 8 filename templates (several names / one name, with and without blanks and brackets); file count against the split rule; budget-limited', bounded_split)]
 CLASSES = {}
